@@ -71,8 +71,17 @@ Fixpoint find_phases (ls : list ctfline) : option (Z * list ctfline) :=
                 else find_phases ls'
   end.
 
-Record cphases := mkCH { ch_names : list string; ch_pgs : list string; ch_sgs : list (option Z);
+Record cphases := mkCH { ch_names : list string; ch_pgs : list (option string); ch_sgs : list (option Z);
                          ch_lats : list (list T) }.
+
+(* the point group handed to PhaseList for one phase line: the Laue class name
+   `laue_ids[laue - 1]` (python indexing) ONLY when the header has no space
+   group (0); with a space group the entry is None and the table is not
+   indexed at all.  None = IndexError. *)
+Definition ctf_point_group (laue sg : Z) : option (option string) :=
+  if (sg =? 0)%Z then
+    match py_index ctf_laue_ids (laue - 1) with Some pg => Some (Some pg) | None => None end
+  else Some None.
 
 Fixpoint read_phases (n : nat) (ls : list ctfline) (acc : cphases) : result cphases :=
   match n with
@@ -80,7 +89,7 @@ Fixpoint read_phases (n : nat) (ls : list ctfline) (acc : cphases) : result cpha
   | S n' =>
       match ls with
       | CLPhase lat name laue sg _ :: ls' =>
-          match py_index ctf_laue_ids (laue - 1) with
+          match ctf_point_group laue sg with
           | Some pg =>
               read_phases n' ls'
                 (mkCH (ch_names acc ++ [name]) (ch_pgs acc ++ [pg])
@@ -108,23 +117,18 @@ Definition grid_coords (nrows ncols : nat) (sx sy : T) : list T * list T :=
   (flat_map (fun _ => map (fun c => o_mul Op (o_ofZ Op (Z.of_nat c)) sx) (seq 0 ncols)) (seq 0 nrows),
    flat_map (fun r => map (fun _ => o_mul Op (o_ofZ Op (Z.of_nat r)) sy) (seq 0 ncols)) (seq 0 nrows)).
 
-(* `stops` = [s.stop for s in _data_slices_from_coordinates({"x": x, "y": y})]
-   (CrystalMap machinery; the observed value is an input of the model).
-   found_shape = (stops[0] + 1, stops[1] + 1) is compared with (YCells, XCells). *)
-Definition fix_astar (hdr : list ctfline) (stops : list Z) (x y : list T) : result (list T * list T) :=
-  match stops with
-  | s0 :: s1 :: _ =>
-      match last_num "XCells" hdr, last_num "YCells" hdr with
-      | Some cx, Some cy =>
-          let nx := nint cx in let ny := nint cy in
-          if ((s0 + 1 =? ny)%Z && (s1 + 1 =? nx)%Z) then Ok (x, y)
-          else match last_num "XStep" hdr, last_num "YStep" hdr with
-               | Some sx, Some sy => Ok (grid_coords (Z.to_nat ny) (Z.to_nat nx) (nval Op sx) (nval Op sy))
-               | _, _ => Err EOther
-               end
+(* _fix_astar_coords: the coordinates of an ASTAR file are ALWAYS those of the
+   header grid, np.indices((YCells, XCells)) * (YStep, XStep), whatever the
+   coordinate columns say (they are printed with four decimals only) *)
+Definition fix_astar (hdr : list ctfline) : result (list T * list T) :=
+  match last_num "XCells" hdr, last_num "YCells" hdr with
+  | Some cx, Some cy =>
+      match last_num "XStep" hdr, last_num "YStep" hdr with
+      | Some sx, Some sy =>
+          Ok (grid_coords (Z.to_nat (nint cy)) (Z.to_nat (nint cx)) (nval Op sx) (nval Op sy))
       | _, _ => Err EOther
       end
-  | _ => Err EIndex
+  | _, _ => Err EOther
   end.
 
 (* ---- file_reader ---- *)
@@ -144,15 +148,14 @@ Fixpoint assign_ctf (em : bool) (names : list string) (k : nat) (rows : list (li
       else Err EIndex
   end.
 
-Definition parse_ctf (lines : list ctfline) (rows : list (list (num (T:=T)))) (stops : list Z)
-    : result (xmap (T:=T)) :=
+Definition parse_ctf (lines : list ctfline) (rows : list (list (num (T:=T)))) : result (xmap (T:=T)) :=
   let hdr := take_header lines in
   let vendor := ctf_vendor hdr in
   bind (ctf_phases hdr) (fun ph =>
   bind (assign_ctf (String.eqb vendor "emsoft") ctf_column_names 0 rows [] []) (fun cp =>
   let '(core, prop) := cp in
   let v nm := map (nval Op) (match aget nm core with Some c => c | None => [] end) in
-  bind (if String.eqb vendor "astar" then fix_astar hdr stops (v "x") (v "y") else Ok (v "x", v "y")) (fun xy =>
+  bind (if String.eqb vendor "astar" then fix_astar hdr else Ok (v "x", v "y")) (fun xy =>
   bind (phaselist Op (map (fun k => Z.of_nat (S k)) (seq 0 (List.length (ch_names ph))))
           (ch_names ph) (ch_sgs ph) (ch_pgs ph) (ch_lats ph)) (fun pl =>
   let pid0 := map nint (match aget "phase_id" core with Some c => c | None => [] end) in
